@@ -96,18 +96,30 @@ def lean_errors(log, limit=12):
     return errs[:limit]
 
 
+def transitive_imports(module):
+    """Aegean.* modules reachable from `module` (including itself)"""
+    seen, todo = [], [module]
+    while todo:
+        m = todo.pop()
+        if m in seen:
+            continue
+        fn = os.path.join(LEAN_DIR, *m.split('.')) + '.lean'
+        if not os.path.exists(fn):
+            continue
+        seen.append(m)
+        for im in re.findall(r'^import\s+(Aegean\.\S+)', open(fn).read(), re.M):
+            todo.append(im)
+    return seen
+
+
 def audit(prop):
     """
     #print axioms for every theorem of the property file + grep for forbidden tokens.
     Returns dict(theorems=[...], axioms={thm: [...]}, bad_axioms=[...], forbidden=[...]).
     """
-    files = []
-    for sub in ('Model', 'Spec', 'Proofs', 'Properties', 'Driver'):
-        d = os.path.join(LEAN_DIR, 'Aegean', sub)
-        if os.path.isdir(d):
-            for fn in sorted(os.listdir(d)):
-                if fn.endswith('.lean') and (fn.startswith(prop) or sub == 'Proofs'):
-                    files.append(os.path.join(d, fn))
+    files = [os.path.join(LEAN_DIR, *m.split('.')) + '.lean' for m in transitive_imports(f'Aegean.Properties.{prop}')
+             if '.Generated.' not in m]
+    files = [f for f in files if os.path.exists(f)]
     forbidden = []
     for fn in files:
         incomment = 0
